@@ -19,7 +19,6 @@ structure Sess where
   zit   : Option (Nat × Nat × ArraySized.Iter) := none
   sit   : Option (Nat × Cursor Elem) := none
   szit  : Option (Nat × Nat × ZipCursor Elem) := none
-  defaultMode : Bool := false
 
 def getSlot {β : Type} (l : List (Option β)) (k : Nat) : Option β := (l[k]?).getD none
 def setSlot {β : Type} (l : List (Option β)) (k : Nat) (v : Option β) : List (Option β) := l.set k v
@@ -81,12 +80,12 @@ def obsM (s : Sess) : String :=
   String.join ((List.range NSLOT).map fun k => match getSlot s.model k with | some a => obsSlotM k a | none => "")
 def obsS (s : Sess) : String :=
   String.join ((List.range NSLOT).map fun k => match getSlot s.spec k with | some xs => obsSlotS k xs | none => "")
-def physSlot (dm : Bool) (k : Nat) (a : ArraySized) : String :=
-  let nb := (if dm then a.size else a.capacity) * a.dataLen
+def physSlot (k : Nat) (a : ArraySized) : String :=
+  let nb := (if a.triple == .libc then a.size else a.capacity) * a.dataLen
   s!"dl{k}={a.dataLen} size{k}={a.size} cap{k}={a.capacity} buf{k}={hex (a.buf.take nb)}"
 def b01 (b : Bool) : String := if b then "1" else "0"
 def phys (s : Sess) : String :=
-  let parts := (List.range NSLOT).filterMap fun k => (getSlot s.model k).map (physSlot s.defaultMode k)
+  let parts := (List.range NSLOT).filterMap fun k => (getSlot s.model k).map (physSlot k)
   if parts.isEmpty then "-" else
   " ".intercalate parts ++
   (match s.it with | some (k, it) => s!" it={k},{it.index},{b01 it.lastRemoved}" | none => "") ++
@@ -159,13 +158,13 @@ def step (s : Sess) (c : Cmd) : Sess × String × String :=
     let sc := c.sched
     let absurd := cap * dl > 2 ^ 40 && !(sc.getD 0 false) && !(sc.getD 1 false)
     let m := if absurd then s.mem.begin [false, true] else m
-    let (st, a, m) := ArraySized.new dl cap (growOf ex) (exGeOf ex) m
+    let (st, a, m) := ArraySized.new dl cap (growOf ex) (exGeOf ex) m (if isDef then .libc else .conf)
     let m := if absurd && st == .errAlloc then { m with nrefused := m.nrefused - 1 } else m
     let sst : Stat := if cap = 0 || exGeOf ex (Gen.CC_MAX_ELEMENTS / cap) then .errInvalidCapacity
       else if dl = 0 || cap > Gen.CC_MAX_ELEMENTS / dl then .errInvalidCapacity
-      else if c.fired > 0 then .errAlloc else .ok
+      else if c.fired > 0 && !isDef then .errAlloc else .ok
     let s' : Sess := { s with model := setSlot s.model k a, spec := setSlot s.spec k (if sst = .ok then some [] else none),
-                              mem := m, defaultMode := s.defaultMode || isDef }
+                              mem := m }
     lines (hdr (some sst)) (hdr (some st)) s'
   | _ =>
   if !anyObj s then noSession s m else
